@@ -174,9 +174,8 @@ struct ThreadOut {
     did: Vec<(usize, &'static str, String)>,
     waker_ops: Vec<&'static str>,
     leftovers: Vec<Option<Waker>>,
-    handles_back: Vec<(usize, SH)>,
-    /// (task, waker flag, wakes when the unprompted final poll returned Ready, result)
-    unwoken: Vec<(usize, Arc<FlagWaker>, u64, Joined)>,
+    /// (task, handle, its waker flag, Some(wakes at the last Pending poll) if the thread gave up un-woken)
+    handles_back: Vec<(usize, SH, Arc<FlagWaker>, Option<u64>)>,
     join_polls: u64,
 }
 
@@ -237,12 +236,13 @@ fn thread_main(mut i: ThreadIn) -> ThreadOut {
                 let flag = Arc::new(FlagWaker::default());
                 let waker = Waker::from(flag.clone());
                 let mut result = None;
+                let mut unwoken_at = None;
                 'join: loop {
                     let seen = flag.wakes.load(SeqCst);
                     o.join_polls += 1;
                     let r = poll_sh(&mut h, &rec, &waker, &mut o.bad);
                     if r != Joined::Pending {
-                        result = Some((r, false));
+                        result = Some(r);
                         break;
                     }
                     // wait for the wake-up; give up only at logical quiescence
@@ -254,24 +254,18 @@ fn thread_main(mut i: ThreadIn) -> ThreadOut {
                             if flag.wakes.load(SeqCst) != seen {
                                 break;
                             }
-                            // The home thread will not tick any more, the last poll
-                            // returned Pending with our waker and nobody woke it.
-                            let r = poll_sh(&mut h, &rec, &waker, &mut o.bad);
-                            if r != Joined::Pending {
-                                result = Some((r, true));
-                            }
+                            // Give up at logical quiescence of the script. Whether the
+                            // wake-up was lost is judged by the home thread once it has
+                            // stopped ticking (a poll from here could race a completion
+                            // and legitimately find the result without any wake-up).
+                            unwoken_at = Some(seen);
                             break 'join;
                         }
                         thread::yield_now();
                     }
                 }
                 match result {
-                    Some((r, unwoken)) => {
-                        if unwoken {
-                            // judged by the home thread once it has stopped ticking
-                            // (Task::run publishes the result before it wakes)
-                            o.unwoken.push((t, flag.clone(), flag.wakes.load(SeqCst), r.clone()));
-                        }
+                    Some(r) => {
                         if r == Joined::Cancelled && w.exec_dropped.load(SeqCst) == 0 {
                             // nobody cancelled this task and the executor is alive
                             o.bad.push((
@@ -283,7 +277,7 @@ fn thread_main(mut i: ThreadIn) -> ThreadOut {
                     }
                     None => {
                         o.did.push((t, "join", "pending".into()));
-                        o.handles_back.push((t, h));
+                        o.handles_back.push((t, h, flag.clone(), unwoken_at));
                     }
                 }
             }
@@ -585,22 +579,6 @@ fn run(p: &Prog) -> RunOut {
         for k in &o.waker_ops {
             note(&mut raced, k);
         }
-        for (t, flag, seen, r) in std::mem::take(&mut o.unwoken) {
-            // the home thread is not inside tick(): every wake it will ever make is made
-            if flag.wakes.load(SeqCst) != seen {
-                continue;
-            }
-            match r {
-                Joined::Ok | Joined::Panicked => bad.push((
-                    "C04/join-wake-lost/remote-join-pending-then-completion".into(),
-                    format!(
-                        "task {t}: a foreign thread's JoinHandle::poll returned Pending (waker registered); the task then completed ({}) but that waker was never woken — the result was found only by polling again unprompted once the executor thread had finished its script (Remote::poll was inside the SETTING_WAKER section when Task::run finished, which then skips the wake; nobody re-checks)",
-                        r.name()
-                    ),
-                )),
-                _ => not_woken += 1,
-            }
-        }
         join_polls += o.join_polls;
         leftovers.push(std::mem::take(&mut o.leftovers));
         handles_back.append(&mut o.handles_back);
@@ -665,11 +643,27 @@ fn run(p: &Prog) -> RunOut {
             }
         }
     }
-    // handles whose join was still pending come home and are released there
-    // (or, for variety, polled once more)
-    for (t, mut h) in handles_back {
+    // Handles whose remote join was still pending come home. The home thread
+    // is not ticking here, so this poll races nothing: if the waker the foreign
+    // thread registered with its last (Pending) poll was never woken and the
+    // result is there now, that wake-up was lost.
+    for (t, mut h, flag, unwoken_at) in handles_back {
         let r = poll_sh(&mut h, &recs[t], &jwaker, &mut bad);
-        let _ = r;
+        if let Some(seen) = unwoken_at
+            && flag.wakes.load(SeqCst) == seen
+        {
+            match r {
+                Joined::Ok | Joined::Panicked => bad.push((
+                    "C04/join-wake-lost/remote-join-pending-then-completion".into(),
+                    format!(
+                        "task {t}: a foreign thread's JoinHandle::poll returned Pending (waker registered); the task then completed ({}) but that waker was never woken — the result was found only by polling the handle again, unprompted, after the executor thread had stopped ticking (Remote::poll was inside the SETTING_WAKER section when Task::run finished, which then skips the wake; nobody re-checks)",
+                        r.name()
+                    ),
+                )),
+                Joined::Cancelled => not_woken += 1,
+                Joined::Pending => {}
+            }
+        }
         drop(h);
     }
     // ---- teardown (unless the script already did it) and late waker use
